@@ -63,6 +63,17 @@ def build_arg(kind, form, dim=None):
     n = form["n"]
     if kind == "vec_dir":
         return sc.vector([0.0, 0.0, 1.0]), None
+    if kind == "vec_axis0":
+        # a direction as callers have it: already a unit vector, or a difference of two
+        # positions (not normalised, with a length unit), or any vector along the axis
+        alts = [([0.0, 1.0, 0.0], None), ([0.0, 0.04, 0.0], "m"), ([0.0, 3.0, 4.0], None), ([0.0, 40.0, 0.0], "mm"),
+                ([0.0, 1.0, 0.0], None), ([0.6, 0.0, 0.8], None)]
+        v, u = alts[form.get("choice", form["seed"]) % len(alts)]
+        return (sc.vector(v, unit=u) if u else sc.vector(v)), None
+    if kind == "vec_base0":
+        u = "mm" if form["unit"] == "target" else "m"
+        f = 1.0 if u == "mm" else 1e-3
+        return sc.vector([0.0, -0.5 * f, 0.0], unit=u), None
     if kind in ("mat_rot", "mat_lin"):
         import scipp.spatial
 
@@ -404,7 +415,36 @@ def _cif_lowlevel(*, column, other):
     return _canon_cif_text(s.getvalue())
 
 
+def _cylinder_ctor(*, symmetry_line, center_of_base, radius, height):
+    """Constructing the public shape classes is an entry point like any other."""
+    from scippneutron.absorption.cylinder import Cylinder
+
+    cyl = Cylinder(symmetry_line=symmetry_line, center_of_base=center_of_base, radius=radius, height=height)
+    return {"center": cyl.center, "volume": cyl.volume, "axis": cyl.symmetry_line, "q": cyl.quadrature("cheap")}
+
+
+def _material_ctor(*, density, wavelength):
+    from scippneutron.absorption.material import Material
+    from scippneutron.atoms import ScatteringParams
+
+    m = Material(ScatteringParams.for_isotope("V"), density)
+    n = m.effective_sample_number_density
+    return {"n": n, "mu": m.attenuation_coefficient(wavelength)}
+
+
+KINDS["cyl_radius"] = {"target": "mm", "others": ["m", "cm"], "fixed": [1.0], "scalar": True, "lo": 0, "hi": 1}
+KINDS["cyl_height"] = {"target": "mm", "others": ["m", "cm"], "fixed": [1.5], "scalar": True, "lo": 0, "hi": 1}
+KINDS["wavelength_s"] = {"target": "angstrom", "others": ["nm", "pm", "m"], "fixed": [[1.8], [0.5], [6.0]], "scalar": True,
+                         "lo": 0, "hi": 1}
+KINDS["density_s"] = {"target": "1/angstrom**3", "others": ["1/nm**3", "1/m**3"], "fixed": [0.07], "scalar": True,
+                      "lo": 0, "hi": 1}
+VEC_KINDS["vec_axis0"] = "dimensionless"
+VEC_KINDS["vec_base0"] = "mm"
+
 CALLS.update({
+    "absorption.Cylinder(...)": (lambda: _cylinder_ctor, _kw(symmetry_line="vec_axis0", center_of_base="vec_base0",
+                                                            radius="cyl_radius", height="cyl_height")),
+    "absorption.Material(...)": (lambda: _material_ctor, _kw(density="density_s", wavelength="wavelength_s")),
     "tof.hkl_vec_from_Q_vec": (_tof("hkl_vec_from_Q_vec"), _kw(Q_vec="vec_Q", ub_matrix="mat_lin", sample_rotation="mat_rot")),
     "tof.ub_matrix_from_u_and_b": (_tof("ub_matrix_from_u_and_b"), _kw(u_matrix="mat_rot", b_matrix="mat_lin")),
     "core.deduce_conversion_graph": (lambda: _deduce, {"$data": "tofdata"}),
